@@ -31,14 +31,17 @@ rep = Report("C08", "rule trees over one variable: base rule, refinement chains 
 # a rule: dict(cond=(lo, hi) meaning lo <= x.a < hi, kind=int, ref=rule|None, alts=[rules], nexts=[rules])
 
 
-def R(lo, hi, ref=None, alts=(), nexts=()):
-    return {"cond": (lo, hi), "ref": ref, "alts": list(alts), "nexts": list(nexts)}
+def R(lo, hi, ref=None, alts=(), nexts=(), sib=None):
+    """sib: a SECOND refinement written after `ref` at the same level (sibling exceptions of one rule; the later one is asked first)"""
+    return {"cond": (lo, hi), "ref": ref, "alts": list(alts), "nexts": list(nexts), "sib": sib}
 
 
 def number(rule, counter):
     rule["kind"] = next(counter)
     if rule["ref"]:
         number(rule["ref"], counter)
+    if rule.get("sib"):
+        number(rule["sib"], counter)
     for r in rule["alts"] + rule["nexts"]:
         number(r, counter)
 
@@ -71,8 +74,14 @@ def ref_eval_single(r, x):
         inner, fired = ref_eval(r["ref"], x)
         if fired:
             return inner
-        return [(r["kind"], x)] + [c for c in inner]      # nexts of an unfired refinement still add
-    return [(r["kind"], x)]
+    else:
+        inner = []
+    if r.get("sib") is not None:          # the exception written second is asked when the first does not hold
+        inner2, fired2 = ref_eval(r["sib"], x)
+        if fired2:
+            return inner2
+        inner = inner + inner2
+    return [(r["kind"], x)] + [c for c in inner]      # nexts of an unfired refinement still add
 
 
 def build(rule, x, v, top=False):
@@ -82,6 +91,10 @@ def build(rule, x, v, top=False):
         r = rule["ref"]
         with refinement(x.a >= r["cond"][0], x.a < r["cond"][1]):
             build(r, x, v)
+    if rule.get("sib") is not None:
+        r2 = rule["sib"]
+        with refinement(x.a >= r2["cond"][0], x.a < r2["cond"][1]):
+            build(r2, x, v)
     for alt in rule["alts"]:
         with alternative(x.a >= alt["cond"][0], x.a < alt["cond"][1]):
             build_inner(alt, x, v)
@@ -105,6 +118,10 @@ def build_branches(rule, x, v):
         r = rule["ref"]
         with refinement(x.a >= r["cond"][0], x.a < r["cond"][1]):
             build(r, x, v)
+    if rule.get("sib") is not None:
+        r2 = rule["sib"]
+        with refinement(x.a >= r2["cond"][0], x.a < r2["cond"][1]):
+            build(r2, x, v)
     for alt in rule["alts"]:
         with alternative(x.a >= alt["cond"][0], x.a < alt["cond"][1]):
             build_inner(alt, x, v)
@@ -154,6 +171,8 @@ def shape_name(rule):
     s = "R"
     if rule["ref"]:
         s += "[ref:" + shape_name(rule["ref"]) + "]"
+    if rule.get("sib"):
+        s += "[sibling-ref:" + shape_name(rule["sib"]) + "]"
     if rule["alts"]:
         s += "[alts:" + ",".join(shape_name(r) for r in rule["alts"]) + "]"
     if rule["nexts"]:
@@ -167,6 +186,10 @@ def trees():
     yield R(0, 5, ref=R(2, 9))
     yield R(0, 5, ref=R(2, 9, ref=R(3, 9)))
     yield R(0, 5, ref=R(1, 9, ref=R(2, 9, ref=R(4, 9))))
+    # sibling refinements of one rule (two exceptions written one after the other)
+    yield R(0, 6, ref=R(0, 2), sib=R(4, 9))
+    yield R(0, 6, ref=R(1, 4), sib=R(3, 9))
+    yield R(0, 6, ref=R(4, 9), sib=R(0, 2), alts=[R(0, 9)])
     yield R(0, 3, alts=[R(0, 5)])
     yield R(0, 2, alts=[R(0, 4), R(0, 6)])
     yield R(0, 2, alts=[R(0, 4), R(0, 5), R(0, 7)])
